@@ -145,6 +145,7 @@ pub uninterp spec fn pvz_post(z0: Seq<ZoomItem>, options: BBIWriteOptions, item_
 
 // signature cut from the repository, body dropped (unit bb_zoom verifies the per-level body)
 //@extract fn bigtools/src/bbi/bigbedwrite.rs process_val_zoom
+//@rule R16
 //@rule R1 min=1
 //@skipbody
 //@ret r
@@ -181,6 +182,7 @@ pub fn zoom_pairs(z: Vec<ZoomCounts>) -> (r: Vec<(u64, u64)>)
 
 impl BigBedFullProcess {
 //@extract method bigtools/src/bbi/bigbedwrite.rs destroy "BBIDataProcessorCreate for BigBedFullProcess"
+//@rule R16
 //@rule R6
 //@rule R7
 //@rule R12c
@@ -213,6 +215,7 @@ impl BigBedFullProcess {
 
 impl BigBedNoZoomsProcess {
 //@extract method bigtools/src/bbi/bigbedwrite.rs destroy "BBIDataProcessorCreate for BigBedNoZoomsProcess"
+//@rule R16
 //@rule R6
 //@rule R12c
 //@sub /([A-Za-z_][\w\.]*)\.is_empty\(\)/ => (\1.len() == 0) min=0
@@ -239,6 +242,7 @@ impl BigBedNoZoomsProcess {
 
 impl BigBedZoomsProcess {
 //@extract method bigtools/src/bbi/bigbedwrite.rs do_process "BBIDataProcessor for BigBedZoomsProcess"
+//@rule R16
 //@rule R1
 //@sub /Self::Value/ => BedEntry min=2
 //@ret r
@@ -256,6 +260,7 @@ impl BigBedZoomsProcess {
 //@end
 
 //@extract method bigtools/src/bbi/bigbedwrite.rs destroy "BBIDataProcessorCreate for BigBedZoomsProcess"
+//@rule R16
 //@rule R6
 //@rule R7
 //@sub /([A-Za-z_][\w\.]*)\.is_empty\(\)/ => (\1.len() == 0) min=0
@@ -318,6 +323,7 @@ use super::*;
 //@end
 // the conversion behind `process_val(..).await?` (From<BigWigInvalidInput> for ProcessDataError)
 //@extract method bigtools/src/bbi/bigwigwrite.rs from "From<BigWigInvalidInput> for ProcessDataError"
+//@rule R16
 //@sub /fn from\(value: BigWigInvalidInput\) -> Self/ => pub fn bwii_into(value: BigWigInvalidInput) -> ProcessDataError min=1
 //@end
 
@@ -339,6 +345,7 @@ pub uninterp spec fn pvz_pre(z0: Seq<ZoomItem>, options: BBIWriteOptions, curren
 pub uninterp spec fn pvz_post(z0: Seq<ZoomItem>, options: BBIWriteOptions, current_val: Value, next: Option<Value>, chrom_id: u32, z1: Seq<ZoomItem>) -> bool;
 
 //@extract fn bigtools/src/bbi/bigwigwrite.rs process_val
+//@rule R16
 //@rule R1 min=1
 //@sub /BBIDataProcessoringInputSectionChannel/ => SectionSink min=1
 //@skipbody
@@ -352,6 +359,7 @@ pub uninterp spec fn pvz_post(z0: Seq<ZoomItem>, options: BBIWriteOptions, curre
             && r.is_ok() && next_val.is_none() ==> final(items)@.len() == 0,
 //@end
 //@extract fn bigtools/src/bbi/bigwigwrite.rs process_val_zoom
+//@rule R16
 //@rule R1 min=1
 //@skipbody
 //@sig
@@ -394,6 +402,7 @@ pub fn zoom_counts_all(zoom_counts: &mut Vec<ZoomCounts>, current_val: Value)
 
 impl BigWigFullProcess {
 //@extract method bigtools/src/bbi/bigwigwrite.rs destroy "BBIDataProcessorCreate for BigWigFullProcess"
+//@rule R16
 //@rule R6
 //@rule R7
 //@rule R12c
@@ -425,6 +434,7 @@ impl BigWigFullProcess {
 //@end
 
 //@extract method bigtools/src/bbi/bigwigwrite.rs do_process "BBIDataProcessor for BigWigFullProcess"
+//@rule R16
 //@rule R1
 //@sub /([\w\.]+\([^;]*?\))\s*\?;/ => (match \1 { Ok(v__) => v__, Err(e__) => return Err(bwii_into(e__)) }); min=0
 //@ret r
@@ -449,6 +459,7 @@ impl BigWigFullProcess {
 
 impl BigWigNoZoomsProcess {
 //@extract method bigtools/src/bbi/bigwigwrite.rs destroy "BBIDataProcessorCreate for BigWigNoZoomsProcess"
+//@rule R16
 //@rule R6
 //@rule R12c
 //@sub /([A-Za-z_][\w\.]*)\.is_empty\(\)/ => (\1.len() == 0) min=0
@@ -474,6 +485,7 @@ impl BigWigNoZoomsProcess {
 //@end
 
 //@extract method bigtools/src/bbi/bigwigwrite.rs do_process "BBIDataProcessor for BigWigNoZoomsProcess"
+//@rule R16
 //@presub /for zoom in zoom_counts \{.*?\n        \}\n/ => zoom_counts_all(zoom_counts, current_val);\n min=1 count=1
 //@rule R1
 //@sub /Self::Value/ => Value min=2
@@ -496,6 +508,7 @@ impl BigWigNoZoomsProcess {
 
 impl BigWigZoomsProcess {
 //@extract method bigtools/src/bbi/bigwigwrite.rs do_process "BBIDataProcessor for BigWigZoomsProcess"
+//@rule R16
 //@rule R1
 //@sub /Self::Value/ => Value min=2
 //@ret r
@@ -514,6 +527,7 @@ impl BigWigZoomsProcess {
 //@end
 
 //@extract method bigtools/src/bbi/bigwigwrite.rs destroy "BBIDataProcessorCreate for BigWigZoomsProcess"
+//@rule R16
 //@rule R6
 //@rule R7
 //@sub /([A-Za-z_][\w\.]*)\.is_empty\(\)/ => (\1.len() == 0) min=0
@@ -560,6 +574,7 @@ proof fn lemma_tiles_step(ce: int, end: int, res: int)
 }
 
 //@extract method bigtools/src/bbi/bigwigwrite.rs do_process "BBIDataProcessor for BigWigNoZoomsProcess"
+//@rule R16
 //@presub /\A.*?for zoom in zoom_counts \{(.*?)\n        \}\n.*\Z/ => fn zoom_count_step(zoom: &mut ZoomCounts, current_val: Value) {\1\n} min=1 count=1
 //@rule R5
 //@sig
